@@ -36,6 +36,8 @@ type DOp struct {
 //	sig R        a signal emitted by run R
 //	err R SF VF  an error message
 //	unk R        a message with an unknown ID
+//	sigasdone R / errasdone R    a work-done frame carrying a signal / error payload (type flip)
+//	doneassig R X / doneaserr R X  a signal / error frame carrying a work-done payload
 //	done1 X      ATP v1 bare work-done
 //	eof          end the server-to-client stream
 type SOp struct {
